@@ -8,7 +8,7 @@ CHECK = {'rule': 'rapid-generated loop runs: tree shape (empty, deep, minimal, r
  'assumptions': ['hooks fsloop.consumer.gap / fsloop.close.announced exist (hook hit counters in evidence; zero hits degrade the check to plain '
                  'stress)',
                  'a Wait that does not return within 30 s is inconclusive (the statement does not promise termination)'],
- 'essential_labels': {'all': ['held-in-gap-until-close',
+ 'essential_labels': {'all': ['two-callback-errors-with-a-read-of-the-list-between', 'held-in-gap-until-close',
                               'producer-released-while-consumers-parked',
                               'injected-error',
                               'consumers=1',
